@@ -601,3 +601,17 @@ func (s *Sched) DeadlockSig() string {
 	sort.Strings(l)
 	return strings.Join(l, " | ")
 }
+
+// Quiescent reports whether no non-daemon thread other than the caller is ready (environment threads use it to evaluate
+// oracles that are only meaningful when the program has nothing left to do without the environment).
+func Quiescent() bool {
+	for _, t := range S.threads {
+		if t == S.cur || t.done || t.daemon {
+			continue
+		}
+		if t.ready == nil || t.ready() {
+			return false
+		}
+	}
+	return true
+}
